@@ -3,9 +3,9 @@
    The model (model/KeySet.v) is that of the repaired source: encryption_phase() does not move to
    the next phase, and decrypt_packet() does not rotate, while a key update is in progress. *)
 From SQ Require Import lib.Base gen.Gen_C15.
-From SQ Require model.KeySet proofs.KeySetProofs.
+From SQ Require model.KeySet proofs.KeySetProofs proofs.KeySetSync.
 From Coq Require Import Sorting.Sorted.
-Import KeySet KeySetProofs.
+Import KeySet KeySetProofs KeySetSync.
 Local Open Scope N_scope.
 
 (* ---- generated constants against RFC 9001 section 6.6 ---- *)
@@ -111,6 +111,20 @@ Theorem C15_old_generation_retained : forall cl il win p ops e i ops' j pn g ph,
   is_ok (snd (decrypt_packet (ep d2 e) g ph pn (largest d2 e) (now d2 + pto d2))) = true.
 Proof. exact old_generation_retained. Qed.
 
+(* which generations can be in flight, for every schedule (shorter than 2^48 steps, the number
+   reserved for forged packets): the endpoints are never more than one generation apart and a
+   genuine packet is at most two generations ahead of its receiver.  Together with
+   C15_mutual_decryptability_partial: a genuine packet of generation g fails to open at a receiver
+   on generation a only if g + 1 < a (older than the previous generation), or g + 1 = a after the
+   timer fired (later than the reordering bound of H1), or g = a + 1 while the receiver's timer is
+   armed, or g = a + 2 (both: the peer started the following update too early, see H2). *)
+Theorem C15_endpoints_in_step : forall cl il win p ops,
+  N.of_nat (length ops) < forged_gen ->
+  let d := dsteps (duo_new cl il win p) ops in
+  forall e, act_gen (ep d e) <= act_gen (ep d (negb e)) + 1 /\
+            forall x, In x (sent d (negb e)) -> fst x <= act_gen (ep d e) + 2.
+Proof. exact endpoints_in_step. Qed.
+
 (* H2 is refuted: the code lets an endpoint start the following update as soon as its own timer
    fired, without an acknowledgement in the current phase (RFC 9001 6.1 MUST NOT, 6.5 SHOULD wait
    3 PTO); with limit 4 / window 3 a generation-2 packet delivered in order with zero delay cannot
@@ -169,6 +183,7 @@ Print Assumptions C15_generation_monotone.
 Print Assumptions C15_generation_structure.
 Print Assumptions C15_mutual_decryptability_partial.
 Print Assumptions C15_old_generation_retained.
+Print Assumptions C15_endpoints_in_step.
 Print Assumptions C15_update_spacing_refuted.
 Print Assumptions C15_survives_any_number_of_updates.
 Print Assumptions C15_rot_judge_model.
